@@ -20,5 +20,10 @@ SameBag(a, b) == Len(a) = Len(b) /\ \A i \in 1..Len(a) : Count(a, a[i]) = Count(
 PermissionSet(m) == {m.perms[i].name : i \in 1..Len(m.perms)}
 PermissionsWithMax(m) == [i \in 1..Len(m.perms) |-> <<m.perms[i].name, m.perms[i].maxsdk>>]
 MainCandidates(m) == {Complete(m.pkg, a.name) : a \in {x \in Range(m.acts) : x.enabled /\ x.main /\ x.launcher}}
+\* activity-alias elements (m.aliases, same shape as components) may carry the MAIN / LAUNCHER filter too; an alias is not an activity:
+\* it is the main entry only when no activity is
+AliasCandidates(m) == {Complete(m.pkg, a.name) : a \in {x \in Range(m.aliases) : x.enabled /\ x.main /\ x.launcher}}
+MainOK(m, main) == IF MainCandidates(m) # {} THEN main \in MainCandidates(m)
+                   ELSE IF AliasCandidates(m) # {} THEN main \in AliasCandidates(m) ELSE main = ""
 EffectiveTarget(m) == IF m.target # 0 THEN m.target ELSE IF m.minsdk # 0 THEN m.minsdk ELSE 1
 =============================================================================
